@@ -4,7 +4,7 @@ before/after snapshots + audit monitor of C-level filesystem events."""
 import itertools
 import os
 
-from mc import core, seams, tf, world
+from mc import core, envrun, seams, tf, world
 from mc.ref import bencode, model
 
 P0 = 16384
@@ -17,6 +17,24 @@ VERSIONS = {"v1": "TorrentFile", "v2": "Assembler2", "hy": "Assembler3",
             # a conformant metafile of another encoder: string url-list,
             # two tracker tiers, unknown keys
             "foreign": None}
+
+
+# process-environment axis: names of the torrent (info.name) and the body the
+# child interpreter runs (one command line per entry, each on a sandbox of
+# its own built by the parent)
+PENV_NAMES = ["top", "café-音楽"]
+_PENV_BODY = r'''
+import json, os
+C = json.loads({blob!r})
+from torrentfile import cli
+OBS = {{}}
+for key, argv in C["runs"]:
+    try:
+        cli.execute(argv)
+        OBS[key] = ["ok", None]
+    except BaseException as e:
+        OBS[key] = ["raised:" + type(e).__name__, str(e)[:100]]
+'''
 
 
 def temp_names(T):
@@ -162,6 +180,27 @@ class ReadOnlyCheck:
             "name, same bytes) / taken by a file, a dangling symbolic link, "
             "a live symbolic link, a symbolic link to a directory (error, "
             "nothing changes: a symbolic link is an existing entry)",
+            "process-environment group (mc/envrun.py): one child interpreter "
+            "per member of envrun.ENVS (ASCII filesystem / locale encodings "
+            "with UTF-8 mode off, POSIX locale, terminal widths, -O, stdout "
+            "closed / full / ascii-only, removed working directory, -W "
+            "error, low recursion / descriptor limits, umasks, no HOME, ...) "
+            "runs, through cli.execute, rename x info.name {ASCII, "
+            "`café-音楽`} x proper name {free, taken by another file whose "
+            "name is the UTF-8 bytes of <info.name>.torrent, already "
+            "carried} x metafile {v1, hybrid; thorough: v2} and info / "
+            "magnet / recheck <root> / recheck <parent> x info.name {ASCII, "
+            "non-ASCII; one payload file named `été`} x {v1, v2, hybrid}, "
+            "each on a sandbox of its own that the parent builds (reference "
+            "encoder metafiles) and snapshots before and after; the child's "
+            "working directory is watched too.  Same snapshot oracle in "
+            "every environment; reading: with the proper name free a rename "
+            "may, outside the baseline environment, refuse (nothing "
+            "changes) or give the metafile's entry - and nothing else - a "
+            "new name with the same bytes; a command that raises is never a "
+            "violation by itself there.  No audit hook runs in the child "
+            "(transient create-then-delete is judged by the in-process "
+            "groups only)",
         ]
         self.rule = (
             "full product of the configuration axes; state = one distinct "
@@ -169,7 +208,13 @@ class ReadOnlyCheck:
             "the real code; oracle = snapshot difference + audited events; "
             "rename's alias axes (argument alias x proper-name occupant) and "
             "create's link axes (output location x link kind) are full "
-            "products too, snapshots taken without following links")
+            "products too, snapshots taken without following links; "
+            "process-environment axis: (rename x name ASCII / non-ASCII x "
+            "proper name free / taken / already carried, read-only commands "
+            "x name ASCII / non-ASCII x metafile kind) x every named process "
+            "environment of mc/envrun.py, commands executed in a child "
+            "interpreter under that environment, sandboxes built and "
+            "snapshotted by the parent")
 
     def groups(self, tier, seed):
         gs = []
@@ -181,6 +226,9 @@ class ReadOnlyCheck:
                 gs.append({"kind": "create", "version": v, "seed": seed,
                            "tier": tier})
             gs.append({"kind": "rename", "version": v, "seed": seed,
+                       "tier": tier})
+        for env in envrun.ENVS:
+            gs.append({"kind": "penv", "env": env, "seed": seed,
                        "tier": tier})
         return gs
 
@@ -824,8 +872,179 @@ class ReadOnlyCheck:
                      "before": entries(before, changed, sb),
                      "after": entries(after, changed, sb)})
 
+    # ------------------------------------------------------------------
+    # process environment (mc/envrun.py)
+    def penv_ops(self, tier):
+        """The sub-catalogue run in every process environment: rename (name
+        of the torrent ASCII / not, proper name free / taken by another file
+        / already carried) and the read-only commands on a torrent whose name
+        and one of whose files are not ASCII."""
+        ops = []
+        for ver in (("v1", "hy") if tier != "thorough"
+                    else ("v1", "v2", "hy")):
+            for nm in PENV_NAMES:
+                for occ in ("free", "taken", "already-correct"):
+                    ops.append({"op": "rename", "version": ver, "name": nm,
+                                "occ": occ})
+        for ver in ("v1", "v2", "hy"):
+            for nm in PENV_NAMES:
+                for cmd in ("info", "magnet", "recheck", "recheck-parent"):
+                    ops.append({"op": cmd, "version": ver, "name": nm})
+        return ops
+
+    @staticmethod
+    def _penv_meta(seed, ver, name, tree):
+        m = model.ref_v1(name, tree, P0) if ver == "v1" else (
+            model.ref_v2(name, tree, P0, 16384) if ver == "v2"
+            else model.ref_hybrid(name, tree, P0, 16384))
+        m[b"announce"] = b"http://t/a"
+        m[b"url-list"] = [b"http://w/"]
+        return bencode.encode(m)
+
+    def run_penv(self, g, res, only=None):
+        """One child interpreter per environment runs every operation of
+        penv_ops through the command line entry point, each in a sandbox of
+        its own that the parent builds beforehand and snapshots before and
+        after (the child only runs the commands).  Read-only commands: the
+        sandbox is name-for-name and byte-for-byte what it was, whatever the
+        command answered.  rename with the proper name taken (by another
+        file / by the metafile itself): nothing changes (and, when another
+        file holds the name, an error is raised).  rename with the proper
+        name free: either exactly the metafile's entry changes its name
+        (same bytes, nothing else touched) or - outside the baseline
+        environment - the command refuses and nothing changes."""
+        import json
+        import shutil
+        seed, env, tier = g["seed"], g["env"], g.get("tier", "quick")
+        top = world.fresh_dir("c18e_")
+        cwd = os.path.join(top, "cwd")
+        os.mkdir(cwd)
+        world.write_file(os.path.join(cwd, "unrelated.txt"), b"keep me")
+        ops = self.penv_ops(tier)
+        runs, plan = [], []
+        for i, op in enumerate(ops):
+            sb = os.path.join(top, f"op{i}")
+            os.mkdir(sb)
+            name = op["name"]
+            files = [(("a",), world.content(seed, 0, 20000)),
+                     (("d", "b"), world.content(seed, 1, P0 + 1)),
+                     (("d", "été"), world.content(seed, 2, 7))]
+            if op["op"] == "rename":
+                raw = self._penv_meta(seed, op["version"], name,
+                                      {(): files[0][1]})
+                target = os.path.join(sb, name + ".torrent")
+                src = os.path.join(sb, "incoming.torrent")
+                if op["occ"] == "already-correct":
+                    src = target
+                elif op["occ"] == "taken":
+                    world.write_file(target, b"someone else's older file")
+                world.write_file(src, raw)
+                world.write_file(os.path.join(sb, "unrelated.txt"), b"keep")
+                argv = ["rename", src]
+                aux = (src, target, raw)
+            else:
+                raw = self._penv_meta(seed, op["version"], name, dict(files))
+                mpath = os.path.join(sb, "m.torrent")
+                world.write_file(mpath, raw)
+                root = world.materialize(files, os.path.join(sb, "data"),
+                                         name=name)
+                argv = {"info": ["info", mpath],
+                        "magnet": ["magnet", mpath],
+                        "recheck": ["recheck", mpath, root],
+                        "recheck-parent": ["recheck", mpath,
+                                           os.path.dirname(root)]}[op["op"]]
+                aux = None
+            runs.append([str(i), argv])
+            plan.append((i, op, sb, aux, world.snapshot(sb)))
+        cwd_before = world.snapshot(cwd)
+        blob = json.dumps({"runs": runs})
+        rep = envrun.run(env, _PENV_BODY.format(blob=blob), cwd=cwd)
+        res.extra["child_interpreters"] += 1
+        if not rep["report"] or not isinstance(rep["obs"], dict) or \
+                len(rep["obs"]) != len(runs):
+            res.outcomes[f"penv:{env}:child-did-not-report"] += 1
+            if env == "default":
+                raise core.InfraError("penv child did not report: " +
+                                      str(rep)[:600])
+            rep = {"obs": {str(i): ["child-died", None]
+                           for i in range(len(runs))}}
+        for i, op, sb, aux, before in plan:
+            st, msg = rep["obs"].get(str(i), ["not-run", None])
+            err = None if st == "ok" else st
+            res.extra["penv_commands_completed" if st == "ok"
+                      else "penv_commands_refused"] += 1
+            after = world.snapshot(sb)
+            changed = diff(before, after)
+            res.states += 1
+            res.transitions += 1
+            res.evals += 1
+            res.validated += 1
+            prob = None
+            strict = env == "default"
+            if op["op"] != "rename":
+                if changed:
+                    prob = "sandbox-changed"
+            else:
+                src, target, raw = aux
+                srel, trel = os.path.relpath(src, sb), \
+                    os.path.relpath(target, sb)
+                if op["occ"] != "free":
+                    if changed:
+                        prob = "clobbered-or-changed-existing"
+                    elif not err and op["occ"] == "taken":
+                        prob = "no-error-when-target-taken"
+                elif not changed:
+                    if err and strict:
+                        prob = "rename-raised:" + err
+                    elif not err and strict:
+                        prob = "name-not-changed"
+                    else:
+                        res.outcomes[f"penv:{env}:rename-refused:"
+                                     f"{err}"] += 1
+                else:
+                    new = [c for c in changed if c not in before]
+                    if [c for c in changed if c in before and c != srel]:
+                        prob = "other-paths-changed"
+                    elif srel in after or len(new) != 1 or \
+                            after[new[0]][0] != "f" or (
+                                strict and new != [trel]):
+                        prob = "name-not-changed"
+                    else:
+                        with open(os.path.join(sb, new[0]), "rb") as f:
+                            if f.read() != raw:
+                                prob = "bytes-changed"
+                        if not prob and err and strict:
+                            prob = "rename-raised:" + err
+            res.outcomes[prob or "ok"] += 1
+            if prob and (only is None or all(
+                    only.get(k) == op.get(k)
+                    for k in ("op", "version", "name", "occ"))):
+                cls = "ascii-name" if op["name"].isascii() else \
+                    "non-ascii-name"
+                word = "rename" if op["op"] == "rename" else \
+                    "cli:" + op["op"]
+                res.violation(
+                    f"C18|{word}|{prob}|"
+                    f"{op.get('occ', 'intact')}|{cls}|penv:{env}",
+                    dict(op, kind="penv", env=env, seed=seed, tier=tier),
+                    {"changed": changed[:6], "error": err, "message": msg,
+                     "before": entries(before, changed[:6], sb),
+                     "after": entries(after, changed[:6], sb)})
+        cwd_changed = diff(cwd_before, world.snapshot(cwd)) \
+            if os.path.isdir(cwd) else ["."]
+        if cwd_changed and (only is None or only.get("op") == "cwd"):
+            res.violation(
+                f"C18|cli|working-directory-changed|penv:{env}",
+                {"kind": "penv", "env": env, "seed": seed, "tier": tier,
+                 "op": "cwd"}, {"changed": cwd_changed[:6]})
+        shutil.rmtree(top, ignore_errors=True)
+        res.sample({"kind": "penv", "env": env, "operations": len(ops)})
+
     def run_group(self, g):
         res = core.Result()
+        if g["kind"] == "penv":
+            self.run_penv(g, res)
+            return res
         if g["kind"] == "readonly":
             self.run_readonly(g, res)
         elif g["kind"] == "create":
@@ -835,6 +1054,13 @@ class ReadOnlyCheck:
         return res
 
     def replay(self, case):
+        if case["kind"] == "penv":
+            res = core.Result()
+            self.run_penv({"env": case["env"], "seed": case["seed"],
+                           "tier": case.get("tier", "quick")}, res,
+                          only=case)
+            return [{"sig": v["sig"], "detail": v["detail"]}
+                    for v in res.violations]
         res = core.Result()
         g = {"version": case["version"], "seed": case["seed"],
              "pstate": case.get("pstate", "intact"),
